@@ -157,6 +157,11 @@ pub fn minimize(ctx: &Ctx, sc: &Scenario, key: &str) -> Scenario {
                     n.env.retain(|(k, _)| !k.starts_with("NOISE"));
                     tries.push(n);
                 }
+                if node.hashseed != 0 {
+                    let mut n = node.clone();
+                    n.hashseed = 0;
+                    tries.push(n);
+                }
                 if node.leak > 0 {
                     let mut n = node.clone();
                     n.leak = 0;
